@@ -450,6 +450,54 @@ theorem encrypt_dict_object_untouched (P : Prims) (d : Decoder) (id gen : Nat) (
       (fun k v ih => ih) v
   exact decryptVal_enc d id gen hR v v (hrefl v)
 
+/-! ## End to end: open with a password, then read any object -/
+
+theorem matches_install (dec : Decoder) (c : Cipher) (fileKey : Bytes) (encRef metaRef : Option (Nat × Nat))
+    (hm : Matches dec c fileKey) : Matches (installDecoder dec encRef metaRef) c fileKey := by
+  cases c <;> exact hm
+
+/-- **C06 for revisions 2–4, user password**: a document whose `/O`, `/U` were made by Algorithms 3–5 and
+    whose strings and streams were stored by Algorithm 1 under the Algorithm 2 key (RC4 of any key length
+    1..16 bytes, or AES-128) opens with the user password, and then *every* object — any object and
+    generation number, any nesting, direct or in an object stream, whatever the trailer's `/Encrypt` and the
+    catalog's `/Metadata` refer to — reads as its plaintext; objects the writer left in the clear (the
+    encryption dictionary, the metadata object when `EncryptMetadata` is false) come back unmodified. -/
+theorem document_plaintext_user_rc4 {P : Prims} {H : Hashes} (hp : PrimsAgree P H) (hw : H.WF) (d : CryptDict) (id0 : Bytes)
+    (n : Nat) (m : Method) (c : Cipher) (hsel : selectMethod d = .ok (8 * n, m)) (hn : 1 ≤ n ∧ n ≤ 16) (hr : 2 ≤ d.r ∧ d.r ≤ 4)
+    (hc : (m = .v2 ∧ c = .rc4) ∨ (m = .aesv2 ∧ c = .aes128 ∧ n = 16))
+    (userPw ownerPw tail : Bytes) (w : WrittenRc4 H d id0 n userPw ownerPw tail) :
+    ∃ dec, fromPassword P d id0 userPw = .ok (.decoder dec) ∧
+      ∀ (encRef metaRef : Option (Nat × Nat)) (compressed : Bool) (id gen : Nat) (plain stored : Val),
+        (if compressed then stored = plain
+         else EncVal (StoredAs H c (alg2Key H d.r n d.o d.p id0 d.encryptMetadata userPw)
+                (Exempt (installDecoder dec encRef metaRef) id gen) id gen) plain stored) →
+        readObject P (some (installDecoder dec encRef metaRef)) compressed id gen stored = .ok plain := by
+  obtain ⟨dec, hfp, hmeth, _, hkey⟩ := user_password_accepted_rc4 hp hw d id0 n m hsel hn hr userPw ownerPw tail w
+  refine ⟨dec, hfp, ?_⟩
+  intro encRef metaRef compressed id gen plain stored hs
+  have hkl : (alg2Key H d.r n d.o d.p id0 d.encryptMetadata userPw).length = n := by
+    unfold alg2Key; rw [List.length_take, alg2Digest_length hw]; omega
+  have hm : Matches dec c (alg2Key H d.r n d.o d.p id0 d.encryptMetadata userPw) := by
+    rcases hc with ⟨h1, h2⟩ | ⟨h1, h2, h3⟩
+    · subst h2; exact ⟨hmeth.trans h1, hkey⟩
+    · subst h2; exact ⟨hmeth.trans h1, hkey, by rw [hkl, h3]⟩
+  exact read_object_plaintext hp hw _ c _ (matches_install dec c _ encRef metaRef hm) compressed id gen plain stored hs
+
+/-- **C06 for revisions 5 and 6, user password** (AES-256): as above with Algorithm 8 and Algorithm 1.A -/
+theorem document_plaintext_user_56 {P : Prims} {H : Hashes} (hp : PrimsAgree P H) (hw : H.WF) (d : CryptDict) (id userPw : Bytes)
+    (kb : Nat) (hsel : selectMethod d = .ok (kb, .aesv3)) (hr : d.r = 5 ∨ d.r = 6)
+    (ho : d.o.length = 48) (oe : Bytes) (hoe : d.oe = some oe) (hoel : oe.length = 32)
+    (pU vs ks fileKey : Bytes) (hprep : prepPw H userPw = some pU) (w : WrittenU56 H d pU vs ks fileKey) :
+    ∃ dec, fromPassword P d id userPw = .ok (.decoder dec) ∧
+      ∀ (encRef metaRef : Option (Nat × Nat)) (compressed : Bool) (id gen : Nat) (plain stored : Val),
+        (if compressed then stored = plain
+         else EncVal (StoredAs H .aes256 fileKey (Exempt (installDecoder dec encRef metaRef) id gen) id gen) plain stored) →
+        readObject P (some (installDecoder dec encRef metaRef)) compressed id gen stored = .ok plain := by
+  refine ⟨_, user_password_accepted_56 hp hw d id userPw kb .aesv3 hsel hr ho oe hoe hoel pU vs ks fileKey hprep w, ?_⟩
+  intro encRef metaRef compressed id gen plain stored hs
+  have hm : Matches (Decoder.mk' fileKey 32 .aesv3 d.encryptMetadata) .aes256 fileKey := ⟨rfl, rfl, w.key⟩
+  exact read_object_plaintext hp hw _ .aes256 _ (matches_install _ _ _ encRef metaRef hm) compressed id gen plain stored hs
+
 /-- before revision 4 `/EncryptMetadata` means nothing: whatever the dictionary says, the decoder
     `from_password` returns for revisions 2 and 3 exempts the encryption dictionary only, so the metadata
     stream is decrypted like every other stream (after the repair f5ad9f6) -/
